@@ -34,7 +34,7 @@ CHECKS["C06"] = dict(
    note="Trusted: CBMC, lowering, CBMC's realloc model with allocation failure excluded (the code asserts non-null). Stated preconditions: Reserve(n>=1); Grow(0) only with capacity >= 1 (otherwise realloc(p,0)). Pointer checks are off inside Grow and Size only (capacity test past the end of the block; Size() right after realloc); emitter extents for strings/integers are C09/C08.",
    technique="CBMC function contracts enforced by DFCC on mechanically sliced member functions (loop-free: complete)")
 CHECKS["C09"] = dict(
-   text="Complete proofs for the escape tables (all 256 bytes: need-escape flag, escape length 0/2/6, escape text per RFC 8259) and for CopyAndGetEscapMask (all VEC_LEN-byte blocks, both vector widths: verbatim copy, mask bit i iff byte i needs an escape, lowest set bit marks a byte needing an escape); unbounded loop-contract proof for DoEscape (any run length: reads only [src,src+nb), writes only [dst,dst+6nb+2), consumes k>=1 bytes, emits 2k..6k bytes, stops at the first byte needing no escape); bounded byte-exactness of DoEscape for runs <= 4. The serializer call site (reservation 6n+32+3 before Quote) is checked in job C06.SerializeImpl.reservations. Quote's own loops (tail page guard, tail mask, extent 6n+2, byte-exact output) are NOT decided: three routes were built and none finished (DESIGN section 12).",
+   text="Complete proofs for the escape tables (all 256 bytes: need-escape flag, escape length 0/2/6, escape text per RFC 8259) and for CopyAndGetEscapMask (all VEC_LEN-byte blocks, both vector widths: verbatim copy, mask bit i iff byte i needs an escape, lowest set bit marks a byte needing an escape); unbounded loop-contract proof for DoEscape (any run length: reads only [src,src+nb), writes only [dst,dst+6nb+2), consumes k>=1 bytes, emits 2k..6k bytes, stops at the first byte needing no escape); bounded byte-exactness of DoEscape for runs <= 4; Quote's tail source selection (page-offset guard or stack copy) proved for all tails, offsets and both preprocessor paths as a verbatim fragment. The serializer call site (reservation 6n+32+3 before Quote) is checked in job C06.SerializeImpl.reservations. Quote's own loops (tail mask, read/write extents, total extent 6n+2, byte-exact output) are NOT decided: four routes were built and none finished (DESIGN section 12).",
    design_ref="DESIGN.md section 5 (C09)",
    note="Trusted: CBMC, lowering, intrinsic/SIMD-wrapper models (sample-validated each run). Undecided: Quote's loops.",
    technique="CBMC assertions over full finite domains (tables, one vector block) + DFCC function/loop contracts (DoEscape); bounded unwinding for exactness")
@@ -46,7 +46,7 @@ CHECKS["C08"] = dict(
    technique="exhaustive native enumeration of the finite kernels + CBMC contract proofs of the composition (kernels replaced by contracts with uninterpreted digit functions)")
 
 CHECKS["C04"] = dict(
-   text="Bounded checks of the real parseNumber (+str2int, carry_one) against an RFC 8259 section 6 oracle: every text of at most 12 bytes of any shape; texts of at most 30 bytes of the shape [-]0.00...0 + 3 free bytes (zeros written with many digits); long-integer shapes of 21 / 23 / 27 bytes whose last 2 / 2 / 4 bytes are free (19/20-digit unsigned and negative integers at the uint64/int64 boundaries, 21+ digit integers); thorough tier: every text of at most 26 bytes. Decided: accept iff the grammar accepts and pos_ lands on the first byte that cannot continue the number; integers within uint64 / int64 delivered exactly with the right kind, others as Double; signed zero; the float converters are reached only with a non-zero mantissa and in-range table indices; a dropped non-zero digit is always reported (trunc) and never reaches an exact-mantissa path. parseFloatingFast's table indices: complete. AtofEiselLemire64 and ParseFloatingNormalFast (real bodies) satisfy a structural contract for all inputs: table index in range, shifts defined, success implies a normal finite double with the sign of the text. Correct rounding of the converters is NOT decided.",
+   text="Bounded checks of the real parseNumber (+str2int, carry_one) against an RFC 8259 section 6 oracle: every text of at most 12 bytes of any shape; texts of at most 30 bytes of the shape [-]0.00...0 + 3 free bytes (zeros written with many digits); long-integer shapes of 21 / 23 / 27 bytes whose last 2 / 2 / 4 bytes are free (19/20-digit unsigned and negative integers at the uint64/int64 boundaries, 21+ digit integers); thorough tier: every text of at most 26 bytes. Decided: accept iff the grammar accepts and pos_ lands on the first byte that cannot continue the number; integers within uint64 / int64 delivered exactly with the right kind, others as Double; signed zero; the float converters are reached only with a non-zero mantissa and in-range table indices; a dropped non-zero digit is always reported (trunc) and never reaches an exact-mantissa path. parseFloatingFast's table indices: complete. AtofEiselLemire64 and ParseFloatingNormalFast (real bodies) satisfy a structural contract for all inputs: table index in range, shifts defined, success implies a normal finite double with the sign of the text. ShouldRoundup (big-decimal fall-back) equals IEEE round-half-to-even for every digit string, position and truncation flag. Correct rounding of the converters is NOT decided.",
    design_ref="DESIGN.md section 5 (C04)",
    note="Inside the parseNumber jobs the converters are stubs asserting their preconditions; simd_str2int is an assumed scalar contract. Two genuine defects found by this check were repaired (known_findings.json).",
    technique="CBMC bounded model checking of the mechanically sliced parseNumber with converter preconditions as assertions (bounded stand-in) + one complete loop-free proof")
